@@ -50,6 +50,29 @@ func (s *scn) applyAdminReg(st CStep) {
 	a0 := s.cfg.World.adminKey(0)
 	if st.N%2 == 0 {
 		na := keyFor("newadmin-" + u)
+		if w := s.cfg.World; st.N%4 == 2 && w.GasPrice > 0 && len(s.users) >= 2 {
+			// the candidate already holds a balance, and the administrator whose approval concludes the proposal cannot pay
+			// the fee of that vote: the vote runs (the role is registered, the grant is paid), fails at the fee stage and
+			// is reverted — the grant must go with it; a later administrator's vote then concludes the proposal for good
+			need := w.Admins/2 + 1
+			if w.Strategy != "" {
+				need = w.Admins
+				for a := 1; a <= w.Admins; a++ {
+					if ok, err := evalStrategy(w.Strategy, uint64(a), 0, uint64(w.Admins)); err == nil && ok {
+						need = a
+						break
+					}
+				}
+			}
+			if need >= 2 {
+				poor := w.adminKey(need - 1)
+				s.flush()
+				s.add(s.b.transfer(s.users[0], na.Addr, "1000"), &txMeta{kind: "transfer", sender: s.users[0], note: "fund-candidate"})
+				s.add(s.b.transfer(poor, s.users[1].Addr, s.amount(poor, "nearly")), &txMeta{kind: "transfer", sender: poor, note: "nearly"})
+				s.flush()
+				s.res.Count("role_macro_deciding_vote_by_an_administrator_without_the_fee")
+			}
+		}
 		s.govApprove(a0, constant.RoleContractAddr, "register-governance-admin", na.Addr.String(), "RegisterRole", pb.String(na.Addr.String()), pb.String("governanceAdmin"), pb.String(""), pb.String("reason"))
 		s.res.Count("role_macro_governance_admin")
 		return
